@@ -3013,6 +3013,13 @@ async fn perform_tcp_binding_check(
 
     // Register the TCP stream with the runner so its read loop handles incoming STUN responses
     inner.gatherer.store_tcp_stream(local_addr, wrapper.clone());
+    if *inner.state.borrow() == IceTransportState::Closed {
+        // stop() ran while this check was connecting: it has emptied the stream table already,
+        // and nothing would remove this entry - or close the socket - again for as long as the
+        // transport object lives.
+        inner.gatherer.tcp_streams.lock().remove(&local_addr);
+        bail!("ICE transport closed during TCP connect to {}", remote.address);
+    }
     let _ = inner.gatherer.socket_tx.send(wrapper);
 
     // Register pending transaction
